@@ -96,7 +96,7 @@ func c02NewConfig(spec c02CfgSpec) (*c02Config, error) {
 		for i := 0; i < total; i++ {
 			for j := 0; j < c02KeysPerShard+4; j++ {
 				// the first and the last key of every range are included
-				k := i*100 + j*7
+				k := i*100 + j*6
 				if j == 1 {
 					k = i*100 + 99
 				}
